@@ -185,6 +185,18 @@ func cmdCheck(args []string) int {
 	}
 	if err := eng.load(pc.Packages, ext, pc.Extra); err != nil {
 		fmt.Fprintln(os.Stderr, "gowp: load:", err)
+		if strings.Contains(err.Error(), "verif_contracts.go:") || strings.Contains(err.Error(), "not found in") {
+			// The code under contract changed so that a contract no longer type-checks against it (a parameter,
+			// field or callee the contract names has gone or changed type): its obligations cannot be generated,
+			// hence are not discharged. Reported as a violation of the property the contract serves.
+			rp := filepath.Join(*verif, "replays", pc.ID, "contract_typecheck.txt")
+			if !*noEvidence {
+				os.MkdirAll(filepath.Dir(rp), 0o755)
+				os.WriteFile(rp, []byte("UNDISCHARGED: contract does not type-check against the current source\nobligation: contract.typecheck\n\n"+err.Error()+"\n"), 0o644)
+			}
+			fmt.Printf("VIOLATION property=%s replay=%s no-failing-input-found\n  obligation contract.typecheck [undischarged]: %s\n", pc.ID, rp, err.Error())
+			return 1
+		}
 		return 2
 	}
 	loadS := time.Since(t0).Seconds()
@@ -373,8 +385,16 @@ func cmdCheck(args []string) int {
 			}
 			os.WriteFile(rp, []byte(b.String()), 0o644)
 		}
-		fmt.Printf("VIOLATION property=%s replay=%s%s\n", pc.ID, rp, suffix)
-		fmt.Printf("  obligation %s [%s] %s: %s (%s)\n", ob.Name, ob.Status, ob.Pos, ob.Text, ob.Kind)
+		if violations <= 25 {
+			fmt.Printf("VIOLATION property=%s replay=%s%s\n", pc.ID, rp, suffix)
+			txt := ob.Text
+			if len(txt) > 160 {
+				txt = txt[:160] + "..."
+			}
+			fmt.Printf("  obligation %s [%s] %s: %s (%s)\n", ob.Name, ob.Status, ob.Pos, txt, ob.Kind)
+		} else if violations == 26 {
+			fmt.Printf("  ... further violations are listed in %s\n", replayDir)
+		}
 	}
 	if total < pc.MinObl || total == 0 {
 		fmt.Printf("VIOLATION property=%s replay=%s no-failing-input-found\n  vacuity guard: %d obligations generated, expected at least %d\n", pc.ID, filepath.Join(replayDir, "vacuity.txt"), total, pc.MinObl)
